@@ -55,6 +55,23 @@ func c17Pinned(name string) c17Case {
 			{"array_to_append": map[string]any{"by_name": "L.items"}},
 			{"struct_fields_as_options": map[string]any{"by_name": "L.items"}},
 		}
+	case "compose-then-initialize":
+		// the composed builder starts from a by-value copy of the source builder's Constructor: both
+		// slices share one backing array with spare capacity (3 constants appended one by one: cap 4)
+		k := func(v string) ast.Type { t := ast.String(); t.Scalar.Value = v; return t }
+		core := ast.NewSchema("panel", ast.SchemaMeta{})
+		core.AddObject(ast.NewObject("panel", "Panel", ast.NewStruct(
+			ast.NewStructField("k1", k("x")), ast.NewStructField("k2", k("y")), ast.NewStructField("k3", k("z")),
+			ast.NewStructField("type", ast.String()), ast.NewStructField("options", ast.Any()), ast.NewStructField("title", ast.String()))))
+		ts := ast.NewSchema("ts", ast.SchemaMeta{Kind: ast.SchemaKindComposable, Variant: ast.SchemaVariantPanel, Identifier: "timeseries"})
+		ts.AddObject(ast.NewObject("ts", "Options", ast.NewStruct(ast.NewStructField("foo", ast.String()))))
+		cs.schemas = ast.Schemas{core, ts}
+		f.Package = "panel"
+		f.Builders = []map[string]any{
+			{"compose": map[string]any{"by_variant": "panelcfg", "source_builder_name": "panel.Panel", "plugin_discriminator_field": "type",
+				"composition_map": map[string]string{"Options": "options"}, "composed_builder_name": "TimeseriesPanel"}},
+			{"initialize": map[string]any{"by_name": "Panel", "set": []any{map[string]any{"property": "title", "value": "hello"}}}},
+		}
 	default:
 		return c17Case{}
 	}
